@@ -2358,7 +2358,7 @@ func Lifecycle(w *load.World, c *core.Collector) {
 						rm = in
 					}
 					if bi, ok := call.Call.Value.(*ssa.Builtin); ok && bi.Name() == "delete" {
-						if p, _ := ssax.Path(call.Call.Args[0]); strings.Contains(p, "shardStore") {
+						if isShardRegistry(call.Call.Args[0]) {
 							del = in
 						}
 					}
@@ -2397,7 +2397,7 @@ func Lifecycle(w *load.World, c *core.Collector) {
 				if !ok || bi.Name() != "delete" {
 					continue
 				}
-				if p, _ := ssax.Path(call.Call.Args[0]); !strings.Contains(p, "shardStore") {
+				if !isShardRegistry(call.Call.Args[0]) {
 					continue
 				}
 				guarded := false
@@ -2412,13 +2412,11 @@ func Lifecycle(w *load.World, c *core.Collector) {
 					}
 					isEntry := func(v ssa.Value) bool {
 						if lk, ok := v.(*ssa.Lookup); ok {
-							p, _ := ssax.Path(lk.X)
-							return strings.Contains(p, "shardStore")
+							return isShardRegistry(lk.X)
 						}
 						if ex, ok := v.(*ssa.Extract); ok {
 							if lk, ok := ex.Tuple.(*ssa.Lookup); ok {
-								p, _ := ssax.Path(lk.X)
-								return strings.Contains(p, "shardStore")
+								return isShardRegistry(lk.X)
 							}
 						}
 						return false
@@ -2462,7 +2460,7 @@ func Lifecycle(w *load.World, c *core.Collector) {
 				if !ok || bi.Name() != "delete" {
 					continue
 				}
-				if p, _ := ssax.Path(call.Call.Args[0]); !strings.Contains(p, "shardStore") {
+				if !isShardRegistry(call.Call.Args[0]) {
 					continue
 				}
 				key := "unregister-closed:" + load.FnKey(f)
@@ -2703,7 +2701,7 @@ func reachesWithoutUnregister(f *ssa.Function, del, rm ssa.Instruction) bool {
 		if !ok {
 			continue
 		}
-		if p, _ := ssax.Path(lk.X); !strings.Contains(p, "shardStore") {
+		if !isShardRegistry(lk.X) {
 			continue
 		}
 		absent := 1
@@ -3233,7 +3231,7 @@ func shardClosedEvents(fn *ssa.Function, depth int) *wcEvents {
 			}
 			// the registry has no entry (a nil entry holds no shard either)
 			if lk, ok := other.(*ssa.Lookup); ok && !lk.CommaOk {
-				if p, _ := ssax.Path(lk.X); strings.Contains(p, "shardStore") {
+				if isShardRegistry(lk.X) {
 					s := 0
 					if (bo.Op == token.NEQ) != neg {
 						s = 1
@@ -3245,7 +3243,7 @@ func shardClosedEvents(fn *ssa.Function, depth int) *wcEvents {
 		// no entry under the directory
 		if ex, ok := cond.(*ssa.Extract); ok && ex.Index == 1 {
 			if lk, ok := ex.Tuple.(*ssa.Lookup); ok {
-				if p, _ := ssax.Path(lk.X); strings.Contains(p, "shardStore") {
+				if isShardRegistry(lk.X) {
 					s := 1
 					if neg {
 						s = 0
@@ -4435,7 +4433,7 @@ func unregistersShard(h *ssa.Function) bool {
 		for _, in := range b.Instrs {
 			if call, ok := in.(*ssa.Call); ok {
 				if bi, ok := call.Call.Value.(*ssa.Builtin); ok && bi.Name() == "delete" {
-					if p, _ := ssax.Path(call.Call.Args[0]); strings.Contains(p, "shardStore") {
+					if isShardRegistry(call.Call.Args[0]) {
 						delBlock = b
 					}
 				}
@@ -4448,7 +4446,7 @@ func unregistersShard(h *ssa.Function) bool {
 			}
 			if ex, ok := cond.(*ssa.Extract); ok && ex.Index == 1 {
 				if lk, ok := ex.Tuple.(*ssa.Lookup); ok {
-					if p, _ := ssax.Path(lk.X); strings.Contains(p, "shardStore") {
+					if isShardRegistry(lk.X) {
 						s := 1
 						if neg {
 							s = 0
@@ -4628,4 +4626,53 @@ func quotaVerdictGuards(w *load.World, lit *ssa.Function, put *ssa.Call) bool {
 		}
 	}
 	return false
+}
+
+// isShardRegistry: the value is the shard manager's table of loaded shards, recognised by its
+// type (a map from the shard directory to *loadedShard), whatever the field is called and
+// wherever in the manager it sits.
+func isShardRegistry(v ssa.Value) bool {
+	t := v.Type()
+	if p, ok := t.Underlying().(*types.Pointer); ok {
+		t = p.Elem()
+	}
+	m, ok := t.Underlying().(*types.Map)
+	if !ok {
+		return false
+	}
+	return strings.HasSuffix(ssax.TypeName(m.Elem()), "loadedShard")
+}
+
+// shardRegistryRow: the struct field that holds the registry and the mutex field next to it, as
+// "pkg.Type.field" names; empty when not found.
+func shardRegistryRow(w *load.World) (field, lock string) {
+	pkg := w.ByPath[clusterPkg]
+	if pkg == nil {
+		return "", ""
+	}
+	sc := pkg.Types.Scope()
+	for _, n := range sc.Names() {
+		tn, ok := sc.Lookup(n).(*types.TypeName)
+		if !ok {
+			continue
+		}
+		st, ok := tn.Type().Underlying().(*types.Struct)
+		if !ok {
+			continue
+		}
+		fi, li := -1, -1
+		for i := 0; i < st.NumFields(); i++ {
+			ft := st.Field(i).Type()
+			if m, ok := ft.Underlying().(*types.Map); ok && strings.HasSuffix(ssax.TypeName(m.Elem()), "loadedShard") {
+				fi = i
+			}
+			if s := ft.String(); s == "sync.Mutex" || s == "sync.RWMutex" {
+				li = i
+			}
+		}
+		if fi >= 0 && li >= 0 {
+			return "cluster." + n + "." + st.Field(fi).Name(), "cluster." + n + "." + st.Field(li).Name()
+		}
+	}
+	return "", ""
 }
